@@ -38,6 +38,7 @@ struct Scenario
 
 static bool g_expfail = false;
 static bool g_ff_always_fails = false;  // expfail == 2: the exporter's ForceFlush always reports failure
+static bool g_sd_first_fails = false;  // expfail == 3: the FIRST exporter's Shutdown reports failure
 static int g_lat      = 0;
 
 static int parse_tag(const std::string &s)
@@ -75,7 +76,7 @@ static bool exp_sd(int x)
 {
   vs::point(vs::K_USER, nullptr);
   emitf("{\"e\":\"XSD\",\"x\":%d}", x);
-  return true;
+  return !(g_sd_first_fails && x == 1);
 }
 
 struct XSpanExporter final : public sdktrace::SpanExporter
@@ -243,6 +244,7 @@ static void run_scenario(const Scenario &sc)
 {
   g_expfail = sc.expfail == 1;
   g_ff_always_fails = sc.expfail == 2;
+  g_sd_first_fails = sc.expfail == 3;
   g_lat     = sc.lat;
   std::vector<std::vector<std::string>> keep((size_t)sc.np + 1);
   for (auto &k : keep)
@@ -316,8 +318,8 @@ static Scenario draw(uint64_t seed)
   if (sc.lat == 4)
     sc.lat = 9;  // Export sleeps 5 ms of virtual time
   sc.fto     = (int)(r() % 4);
-  sc.expfail = (int)(r() % 4);
-  if (sc.expfail == 3)
+  sc.expfail = (int)(r() % 5);
+  if (sc.expfail == 4)
     sc.expfail = 0;
   sc.destroy = (r() % 5) == 0;
   sc.B       = 1 + (int)(r() % 3);
